@@ -9,6 +9,9 @@
 //                             attach an instance of the first-party plugin mujoco.pid (registered from the working
 //                             tree's plugin/actuator/pid.cc) to the named actuator, config given as strings
 //                             -> "ok nq nv nu na nplugin" | "error <msg>"
+//                               xcable bodies=<b1,b2,..> twist=.. bend=.. flat=true|false vmax=0
+//                             put the listed bodies under one instance of mujoco.elasticity.cable (registered from
+//                             the working tree's plugin/elasticity/cable.cc, compiled into this harness)
 //   ldata <d> <m>             mj_makeData -> "ok" | "error <msg>" (plugin init failure is reported, not fatal)
 //   st <d> k=v ...            mj_resetData, then write: time=<x> and any mjData array field (qpos=1,2 ctrl=.. act=..)
 //   stk <d> k=v ...           same without the reset (keeps the rest of mjData: multi-step behaviours)
@@ -18,10 +21,11 @@
 //   wobs <d> f1,f2,...        number of warnings raised so far | obs  (bad-ctrl etc.)
 #include "mjdrv_common.h"
 #include "pid.h"
+#include "cable.h"
 
 static mjSpec* l_spec(const std::vector<std::string>& desc) {
-  std::vector<std::string> plain, pid;
-  for (auto& l : desc) (l.rfind("xpid ", 0) == 0 ? pid : plain).push_back(l);
+  std::vector<std::string> plain, pid, cable;
+  for (auto& l : desc) (l.rfind("xpid ", 0) == 0 ? pid : l.rfind("xcable ", 0) == 0 ? cable : plain).push_back(l);
   plain.push_back("end");
   size_t j = 0; mjSpec* s = mk_spec(plain, j);
   int n = 0;
@@ -42,6 +46,26 @@ static mjSpec* l_spec(const std::vector<std::string>& desc) {
     mjs_setString(a->plugin.plugin_name, "mujoco.pid");
     mjs_setString(a->plugin.name, in.c_str());
     a->plugin.active = 1;
+  }
+  int nc = 0;
+  for (auto& l : cable) {
+    std::string kind; std::vector<std::pair<std::string, std::string>> kv; mk_parse_line(l, kind, kv);
+    std::string bodies = mk_take(kv, "bodies");
+    if (mjs_activatePlugin(s, "mujoco.elasticity.cable")) mk_die("xcable: plugin mujoco.elasticity.cable is not registered");
+    mjsPlugin* p = mjs_addPlugin(s);
+    std::string in = "cable" + std::to_string(nc++);
+    mjs_setName(p->element, in.c_str());
+    mjs_setString(p->plugin_name, "mujoco.elasticity.cable");
+    p->active = 1;
+    std::map<std::string, std::string, std::less<>> attr;
+    for (auto& q : kv) attr[q.first] = q.second;
+    mjs_setPluginAttributes(p, &attr);
+    for (auto& bn : drv_csv(bodies)) {
+      mjsBody* b = mjs_findBody(s, bn.c_str()); if (!b) mk_die("xcable: unknown body " + bn);
+      mjs_setString(b->plugin.plugin_name, "mujoco.elasticity.cable");
+      mjs_setString(b->plugin.name, in.c_str());
+      b->plugin.active = 1;
+    }
   }
   return s;
 }
@@ -125,5 +149,6 @@ static bool l_extra(const std::vector<std::string>& t, const std::vector<std::st
 
 int main() {
   mujoco::plugin::actuator::Pid::RegisterPlugin();
+  mujoco::plugin::elasticity::Cable::RegisterPlugin();
   return drv_main(l_extra);
 }
